@@ -180,6 +180,8 @@ pub struct WorkerCtx {
     pub dir: PathBuf,
     pub stats: RefCell<Stats>,
     pub current: RefCell<Option<std::fs::File>>,
+    /// shrink budget (proptest iterations); expensive properties lower it
+    pub max_shrink: std::cell::Cell<u32>,
 }
 
 impl WorkerCtx {
@@ -264,7 +266,7 @@ where
     let cfg = Config {
         cases: cases.min(u32::MAX as u64) as u32,
         failure_persistence: None,
-        max_shrink_iters: 3000,
+        max_shrink_iters: ctx.max_shrink.get(),
         max_global_rejects: u32::MAX,
         max_local_rejects: u32::MAX,
         verbose: 0,
@@ -396,7 +398,7 @@ fn limit_memory() {
 pub fn worker_main(def: &CheckDef, tier: Tier, seed: u64, idx: u64, n: u64, dir: &Path) -> i32 {
     recording_panics();
     limit_memory();
-    let ctx = WorkerCtx { id: def.id.to_string(), tier, seed, idx, n, dir: dir.to_path_buf(), stats: RefCell::new(Stats::new()), current: RefCell::new(None) };
+    let ctx = WorkerCtx { id: def.id.to_string(), tier, seed, idx, n, dir: dir.to_path_buf(), stats: RefCell::new(Stats::new()), current: RefCell::new(None), max_shrink: std::cell::Cell::new(3000) };
     let t0 = Instant::now();
     let res = (def.worker)(&ctx);
     let st = ctx.stats.borrow();
